@@ -35,7 +35,7 @@ HDRS = ["clipper.core.h", "clipper.engine.h", "clipper.offset.h", "clipper.rectc
         "clipper.h", "clipper.minkowski.h", "clipper.export.h", "clipper.version.h"]
 DRIVER = os.path.join(VERIF, "driver", "all_api.cpp")
 PORTABLE_H = os.path.join(VERIF, "driver", "force_portable.h")
-EXTRACTOR_VERSION = "7"
+EXTRACTOR_VERSION = "8"
 
 
 class AnalysisBroken(Exception):
@@ -221,6 +221,8 @@ def _resolve_locs(top):
         for k in list(node.keys()):
             if k in _DROP_KEYS:
                 del node[k]
+        if "inner" in node:
+            node["inner"] = [c for c in node["inner"] if not (isinstance(c, dict) and str(c.get("kind", "")).endswith("Comment"))]
         children = []
         for k, v in node.items():
             if k == "inner":
